@@ -57,7 +57,8 @@ static void row(std::ofstream& out, size_t i, size_t j, const char* how, const A
       << ",\"lt\":" << ((a < b) ? "true" : "false") << ",\"le\":" << ((a <= b) ? "true" : "false")
       << ",\"gt\":" << ((a > b) ? "true" : "false") << ",\"ge\":" << ((a >= b) ? "true" : "false")
       << ",\"meq\":" << ((b == a) ? "true" : "false") << ",\"mlt\":" << ((b < a) ? "true" : "false")
-      << ",\"mgt\":" << ((b > a) ? "true" : "false") << "}\n";
+      << ",\"mgt\":" << ((b > a) ? "true" : "false") << ",\"mne\":" << ((b != a) ? "true" : "false")
+      << ",\"mle\":" << ((b <= a) ? "true" : "false") << ",\"mge\":" << ((b >= a) ? "true" : "false") << "}\n";
 }
 
 int main(int argc, char** argv) {
